@@ -432,6 +432,7 @@ func casesSearch(c *caseCtx, prop string) {
 			cfg.tt = sizes[c.r.Intn(len(sizes))]
 			runSearchCase(c, zt, zseed, f, nil, cfg)
 		}
+		gameTableChecks(c)
 	case "C12":
 		for i := 0; i < c.scale(25, 400); i++ {
 			f := pick()
@@ -578,4 +579,73 @@ func deepChecks(c *caseCtx, prop string) {
 		}
 	}
 	fmt.Printf("deepcmp=%d\n", n)
+}
+
+// gameTableChecks (C11): one table shared along the successive positions of a game, with static and
+// quiescence leaves, all table sizes incl. tables that keep depth-0 entries; every search is compared
+// with the same search without a table (score equal, first PV move has the same value).
+func gameTableChecks(c *caseCtx) {
+	ctx := context.Background()
+	zt := board.NewZobristTable(0)
+	n := 0
+	sizes := []uint64{64, 1024, 65536, 1 << 20}
+	for g := 0; g < c.scale(25, 500); g++ {
+		f, ok := randomSmallPosition(c)
+		if !ok || c.r.Intn(3) == 0 {
+			f = curatedFENs[1+c.r.Intn(5)]
+		}
+		pos, turn, _, _, err := fen.Decode(f)
+		if err != nil || pos == nil {
+			continue
+		}
+		quiet := c.r.Intn(2) == 0
+		mk := func() search.Search {
+			if quiet {
+				return search.AlphaBeta{Eval: search.Quiescence{Explore: capturesOnly, Eval: search.Leaf{Eval: eval.Material{}}}}
+			}
+			return search.AlphaBeta{Eval: search.Leaf{Eval: eval.Material{}}}
+		}
+		tt := search.NewTranspositionTable(ctx, sizes[c.r.Intn(len(sizes))])
+		b := board.NewBoard(zt, pos, turn, 0, 1)
+		var played []string
+		for ply := 0; ply < 5; ply++ {
+			d := 1 + c.r.Intn(3)
+			if ply > 0 && c.r.Intn(2) == 0 {
+				d = 2 // a typical pattern: depth d, play a move, depth d-1
+			}
+			_, withT, pvT, e1 := mk().Search(ctx, &search.Context{TT: tt}, b, d)
+			b2 := b.Fork()
+			_, without, _, e2 := mk().Search(ctx, &search.Context{TT: search.NoTranspositionTable{}}, b2, d)
+			n++
+			if e1 != nil || e2 != nil {
+				break
+			}
+			le := func(a, b eval.Score) bool { return !b.Less(a) }
+			if !(le(withT, without) && le(without, withT)) {
+				fmt.Printf("IMPLVIOL tablegame %s moves=[%s] depth=%d q=%s :: with the shared table the search returns %s, without a table %s prop=C11 key=game-table\n", f, strings.Join(played, " "), d, b01(quiet), scoreTok(withT), scoreTok(without))
+				break
+			}
+			// play the PV move (or a random legal move) and continue with the same table
+			ms := legalMoves(b.Position(), b.Turn())
+			if len(ms) == 0 {
+				break
+			}
+			m := ms[c.r.Intn(len(ms))]
+			if len(pvT) > 0 && c.r.Intn(2) == 0 {
+				for _, x := range ms {
+					if x.Equals(pvT[0]) {
+						m = x
+					}
+				}
+			}
+			if !b.PushMove(m) {
+				break
+			}
+			played = append(played, uciMove(m))
+			if b.Result().Outcome == board.Draw {
+				break
+			}
+		}
+	}
+	fmt.Printf("COUNT tablegame %d\n", n)
 }
